@@ -256,8 +256,8 @@ H3 = Tuple[int, int, int]
 def c19_fa(subject: int, ops: H3, k: int) -> bool:
     """
     pre: pinned(subject=subject, k=k, o0=ops[0], o1=ops[1])
-    pre: 0 <= subject < 8 and 1 <= k <= 3
-    pre: all(0 <= ops[i] < NFAOPS and (i < k or ops[i] == 0) for i in range(3))
+    pre: ((0 <= subject) & (subject < 8)) & ((1 <= k) & (k <= 3))
+    pre: enc.word_ranges(ops, k, NFAOPS)
     post: _
     """
     raw = (subject, ops, k)
@@ -321,8 +321,8 @@ def rx_battery(r):
 def c19_regex(subject: int, ops: H3, k: int) -> bool:
     """
     pre: pinned(subject=subject, k=k, o0=ops[0], o1=ops[1])
-    pre: 0 <= subject < 5 and 1 <= k <= 3
-    pre: all(0 <= ops[i] < NRXOPS and (i < k or ops[i] == 0) for i in range(3))
+    pre: ((0 <= subject) & (subject < 5)) & ((1 <= k) & (k <= 3))
+    pre: enc.word_ranges(ops, k, NRXOPS)
     post: _
     """
     raw = (subject, ops, k)
@@ -426,8 +426,8 @@ def cfg_battery(g):
 def c19_cfg(subject: int, ops: H3, k: int) -> bool:
     """
     pre: pinned(subject=subject, k=k, o0=ops[0], o1=ops[1])
-    pre: 0 <= subject < 8 and 1 <= k <= 3
-    pre: all(0 <= ops[i] < NCFGOPS and (i < k or ops[i] == 0) for i in range(3))
+    pre: ((0 <= subject) & (subject < 8)) & ((1 <= k) & (k <= 3))
+    pre: enc.word_ranges(ops, k, NCFGOPS)
     post: _
     """
     raw = (subject, ops, k)
@@ -493,8 +493,8 @@ def pda_battery(p):
 def c19_pda(subject: int, ops: H3, k: int) -> bool:
     """
     pre: pinned(subject=subject, k=k, o0=ops[0], o1=ops[1])
-    pre: 0 <= subject < 3 and 1 <= k <= 3
-    pre: all(0 <= ops[i] < NPDAOPS and (i < k or ops[i] == 0) for i in range(3))
+    pre: ((0 <= subject) & (subject < 3)) & ((1 <= k) & (k <= 3))
+    pre: enc.word_ranges(ops, k, NPDAOPS)
     post: _
     """
     raw = (subject, ops, k)
